@@ -106,11 +106,17 @@ const NUMPAD_AND_EDIT: [KeyCode; 23] = [
 
 /// which (mods, mode) pairs select a level, per the property's quantifier
 fn selects(level: Level, m: u16, mode: usize) -> bool {
+    selects_key(level, m, mode, true)
+}
+
+/// `letter_key`: the key types one of a..z unmodified on this layout – only for such a key is Ctrl "being mapped" when it
+/// is held in mapping mode (C09: on any other key Ctrl handling changes nothing, so the level's character is still due)
+fn selects_key(level: Level, m: u16, mode: usize, letter_key: bool) -> bool {
     let f = facts(m);
     if f.caps {
         return false;
     }
-    if mode == 0 && f.ctrl {
+    if mode == 0 && f.ctrl && letter_key {
         return false; // Ctrl is being mapped
     }
     match level {
@@ -146,7 +152,7 @@ pub fn run_c03(rep: &mut Report) {
                     for form in 0..3 {
                         for mode in 0..2 {
                             for m in 0..512u16 {
-                                if selects(Level::AltGr, m, mode) && cube.get(li, form, ki, mode, m) != cube.get(li, form, ki, mode, m & !(B_RALT | B_LALT)) {
+                                if selects_key(Level::AltGr, m, mode, ascii_letter(&cube, li, ki).is_some()) && cube.get(li, form, ki, mode, m) != cube.get(li, form, ki, mode, m & !(B_RALT | B_LALT)) {
                                     has_altgr[form] = true;
                                 }
                             }
@@ -156,7 +162,7 @@ pub fn run_c03(rep: &mut Report) {
                 for form in 0..3 {
                     for mode in 0..2 {
                         for m in 0..512u16 {
-                            if !selects(level, m, mode) {
+                            if !selects_key(level, m, mode, ascii_letter(&cube, li, ki).is_some()) {
                                 continue;
                             }
                             let got = cube.get(li, form, ki, mode, m);
@@ -237,13 +243,14 @@ pub fn run_c03(rep: &mut Report) {
                 return Acc::Any; // no transcribed standard for a layout the harness does not know
             }
             let key = cube_ref.keys[ki];
+            let letter = ascii_letter(cube_ref, li, ki).is_some();
             for level in [Level::Base, Level::Shift] {
-                if selects(level, m, mode) {
+                if selects_key(level, m, mode, letter) {
                     let a = refs[li].accepted(level, key);
                     return if a.is_empty() { Acc::Any } else { Acc::OneOf(a.iter().map(|c| *c as u32).collect()) };
                 }
             }
-            if selects(Level::AltGr, m, mode) {
+            if selects_key(Level::AltGr, m, mode, letter) {
                 let a = refs[li].accepted(Level::AltGr, key);
                 if a.is_empty() {
                     return Acc::Any;
